@@ -222,11 +222,11 @@ Proof. intros thr rows h Hh. unfold occupancy_lookup. rewrite nth_error_map. rew
 Lemma occupied_iff_ratio : forall thr rows h, (0 < n_residuals rows h)%nat ->
   (occupied_flag thr rows h = true <-> thr < ratio (n_positive rows h) (n_residuals rows h)).
 Proof.
-  intros thr rows h Hn. unfold occupied_flag. destruct (n_residuals rows h) as [ | n ] eqn:E; [ lia | ]. apply Qltb_true.
+  intros thr rows h Hn. unfold occupied_flag, flag_q. destruct (n_residuals rows h) as [ | n ] eqn:E; [ lia | ]. apply Qltb_true.
 Qed.
 
 Lemma occupied_without_residuals : forall thr rows h, n_residuals rows h = O -> occupied_flag thr rows h = true.
-Proof. intros thr rows h Hn. unfold occupied_flag. rewrite Hn. reflexivity. Qed.
+Proof. intros thr rows h Hn. unfold occupied_flag, flag_q. rewrite Hn. reflexivity. Qed.
 
 (* the same without division: p positive residuals out of n > 0 *)
 Lemma ratio_gt_iff : forall thr p n, (0 < n)%nat ->
